@@ -50,6 +50,39 @@ func main() {
 		fmt.Println("usage: hidicheck -property Cxx [-tier quick|thorough] [-repo dir]")
 		os.Exit(2)
 	}
+	if *prop == "all" {
+		// convenience mode (not registered in MANIFEST): one load, every property's rules, no controls
+		p, err := LoadRepo(*repo, "")
+		if err != nil {
+			fmt.Println("CHECKER FAILURE: load failed:", err)
+			os.Exit(1)
+		}
+		known, _ := loadKnown(*verif + "/known_findings.txt")
+		d, _ := os.MkdirTemp("", "hidicheck-ev")
+		defer os.RemoveAll(d)
+		var ids []string
+		for id := range registry {
+			ids = append(ids, id)
+		}
+		sort.Strings(ids)
+		rc := 0
+		for _, id := range ids {
+			func() {
+				defer func() {
+					if r := recover(); r != nil {
+						fmt.Printf("CHECKER FAILURE: property=%s panic: %v\n", id, r)
+						rc = 1
+					}
+				}()
+				c := NewCtx(p, id, "quick")
+				registry[id](c)
+				if c.Finish(d, seed, start, known, map[string]any{}) != 0 {
+					rc = 1
+				}
+			}()
+		}
+		os.Exit(rc)
+	}
 	fn, ok := registry[*prop]
 	if !ok {
 		fmt.Printf("no rules registered for %s\n", *prop)
